@@ -1,4 +1,5 @@
 """Generic AMG solver."""
+import inspect
 from warnings import warn
 
 import scipy as sp
@@ -526,7 +527,12 @@ class MultilevelSolver:
 
                 # for scipy solvers, see if rtol is available
                 kwargs['rtol'] = tol
-                kwargs['atol'] = 0
+                try:
+                    has_atol = 'atol' in inspect.signature(accel).parameters
+                except (TypeError, ValueError):
+                    has_atol = True
+                if has_atol:  # e.g. scipy's minres has no atol
+                    kwargs['atol'] = 0
 
                 x, info = accel(A, b, x0=x0, maxiter=maxiter, M=M,
                                 callback=callback_wrapper, **kwargs)
